@@ -8,45 +8,6 @@ from checks import rtbuf_common as rb
 LEVEL = "proof"
 
 
-def load_corpus(prop):
-    d = os.path.join(common.VERIF, "corpus", prop)
-    out = []
-    if os.path.isdir(d):
-        for f in sorted(os.listdir(d)):
-            if f.endswith(".txt"):
-                for ln in open(os.path.join(d, f)):
-                    ln = ln.strip()
-                    if ln and not ln.startswith("#"):
-                        out.append((f, ln))
-    return out
-
-
-def parse_line(ln):
-    """inverse of Case.line (for corpus files)"""
-    f = ln.split(" ")
-    cap = None if f[2] == "D" else int(f[2])
-    clocks = [] if f[3] == "-" else [int(x) for x in f[3].split(",")]
-    ops = []
-    for o in ([] if f[4] == "-" else f[4].split(";")):
-        k = o[0]
-        if k == "E":
-            mcv, ch = o[1:].split(":")
-            ops.append(rb.E(bytes.fromhex(mcv), *[(b"" if c == "z" else bytes.fromhex(c)) for c in (ch.split(",") if ch != "" else [])]))
-        elif k == "J":
-            mcv, d = o[1:].split(":")
-            if d[0] == "h":
-                ops.append(rb.J(bytes.fromhex(mcv), data=bytes.fromhex(d[1:])))
-            else:
-                s, n = d[1:].split(".")
-                ops.append(rb.J(bytes.fromhex(mcv), blobspec=(int(s), int(n))))
-        elif k in "POST":
-            t, v = o[1:].split(",")
-            ops.append(rb.Op(k, typ=int(t), value=int(v)))
-        else:
-            ops.append(rb.Op(k))
-    return rb.Case(cap, clocks, ops, "corpus")
-
-
 def run(chk):
     chk.trusted_base = common.BASE_TRUST + [
         "translator translate/c2gallina.py (clang JSON AST -> Gallina) for get_jumbo_payload_size, ovni_payload_size, ovni_ev_size and the constants (sizeof, OVNI_EV_JUMBO, OVNI_MAX_EV_BUF, OVNI_STREAM_VERSION), regenerated from the tree under test on every run",
@@ -62,8 +23,8 @@ def run(chk):
     quick = chk.tier == "quick"
 
     cases = []
-    for fn, ln in load_corpus("C01") + load_corpus("C02"):
-        c = parse_line(ln)
+    for fn, ln in rb.load_corpus("C01") + rb.load_corpus("C02"):
+        c = rb.parse_line(ln)
         c.cls = "corpus"
         cases.append(c)
     caps = [128] if quick else [128, 257, 512]
@@ -115,36 +76,16 @@ def run(chk):
             if res["obs"] is not None:
                 stats["flushes"] += res["obs"].count(b"\x00OF[")
         # correspondence with the model
-        m1, m0 = res["m1"], res["m0"]
-        if m1 is not None:
-            def same(m):
-                if m["status"] != ist:
-                    return False
-                if ist != "ok":
-                    return True
-                d = res["obs"] or b""
-                if m["disk_len"] != len(d) or m["disk_md5"] != hashlib.md5(d).hexdigest():
-                    return False
-                if m["disk_hex"] is not None and m["disk_hex"] != d.hex():
-                    return False
-                # the model's log of handed events carries the same clocks as the driver's
-                ue = rb.user_events(c, res["emit"])
-                if len(ue) != len(m["log"]):
-                    return False
-                for u, mc in zip(ue, m["log"]):
-                    if mc not in u[1]:
-                        return False
-                return True
-            s1, s0 = same(m1), same(m0)
-            if s1 and s0:
-                stats["variant_both"] += 1
-            elif s1:
-                stats["variant_fixed"] += 1
-            elif s0:
-                stats["variant_old"] += 1
-            else:
-                corr_broken.append({"script": c.short(1500), "impl": ist, "impl_len": len(res["obs"] or b""),
-                                    "model": m1["status"], "model_len": m1.get("disk_len")})
+        mm = rb.model_match(c, res)
+        if mm == "both":
+            stats["variant_both"] += 1
+        elif mm == "fixed":
+            stats["variant_fixed"] += 1
+        elif mm == "old":
+            stats["variant_old"] += 1
+        elif mm is None:
+            corr_broken.append({"script": c.short(1500), "impl": ist, "impl_len": len(res["obs"] or b""),
+                                "model": res["m1"]["status"], "model_len": res["m1"].get("disk_len")})
         return (c.cls, ist)
 
     if ctx.oracle or True:
